@@ -179,3 +179,22 @@ pub fn project_x64(subs: Vec<Term<Sub>>, externs: Vec<ExternSymbol>) -> Project 
 pub fn render(project: &Project) -> String {
     format!("{}", project.program.term)
 }
+
+/// Serializable form of a program (a `Project` itself cannot go through
+/// serde_json because its maps are keyed by `Tid` structs). Used in replay files.
+#[derive(serde::Serialize, serde::Deserialize, Clone, Debug)]
+pub struct ProgramSpec {
+    pub subs: Vec<Term<Sub>>,
+    pub externs: Vec<ExternSymbol>,
+}
+impl ProgramSpec {
+    pub fn of(project: &Project) -> ProgramSpec {
+        ProgramSpec {
+            subs: project.program.term.subs.values().cloned().collect(),
+            externs: project.program.term.extern_symbols.values().cloned().collect(),
+        }
+    }
+    pub fn to_project_x64(&self) -> Project {
+        project_x64(self.subs.clone(), self.externs.clone())
+    }
+}
